@@ -216,7 +216,10 @@ func (s *QSeq) AppendColumns(a ...[]alphabet.QLetter) error {
 		}
 	}
 
-	s.Seq = append(s.Seq, a...)
+	// Copy the columns: the caller may reuse its buffers (AppendEach does).
+	for _, c := range a {
+		s.Seq = append(s.Seq, append([]alphabet.QLetter(nil), c...))
+	}
 
 	return nil
 }
@@ -251,11 +254,7 @@ func (s *QSeq) AppendEach(a [][]alphabet.QLetter) error {
 func (s *QSeq) Column(pos int, _ bool) []alphabet.Letter {
 	c := make([]alphabet.Letter, s.Rows())
 	for i, l := range s.Seq[pos] {
-		if l.Q >= s.Threshold {
-			c[i] = l.L
-		} else {
-			c[i] = s.QFilter(s.Alpha, 255, alphabet.QLetter{})
-		}
+		c[i] = s.QFilter(s.Alpha, s.Threshold, l)
 	}
 
 	return c
